@@ -67,6 +67,12 @@ def families(tier, rng):
                 x.append(["dsend", 1, data])
             x += [["deof", 1], ["send", 1, "PWD"]] + FOLLOW["retr"]
             fam.append(("race-start:%s" % verb, x))
+    # (v) ABOR while the receiver has stopped reading the data connection (the server's send buffer is full)
+    for verb, arg in (("RETR", "f"), ("RETR", "d/g"), ("LIST", ""), ("MLSD", "d"), ("LIST", "d")):
+        for hw in (1, 4, 64):
+            for fu in fkeys[:3]:
+                x = LOGIN + [["send", 1, "PASV"], ["dconnect", 1], ["hold", 1, hw], ["send", 1, (verb + " " + arg).strip()], ["send", 1, "ABOR"], ["send", 1, "PWD"]]
+                fam.append(("held:%s" % verb, x + FOLLOW[fu] + FOLLOW["retr"]))
     # (iii) nothing to abort
     fam.append(("none", LOGIN + [["send", 1, "ABOR"], ["send", 1, "ABOR"]] + FOLLOW["retr"]))
     fam.append(("none", [["connect", 1], ["send", 1, "ABOR"], ["send", 1, "USER u1"], ["send", 1, "ABOR"], ["send", 1, "PASS pw1"], ["send", 1, "ABOR"]]))
